@@ -48,15 +48,15 @@ type cliFileSpec struct {
 func cliContent(cls, tag string) string {
 	switch cls {
 	case "xml", "noext", "linkxml", "stdinxml", "svg":
-		return `<?xml version="1.0"?>` + "\n" + `<r><a>` + tag + `-1</a><b><a x="1" n:y="2" xmlns:n="urn:n">` + tag + `-2<!--c ` + tag + `--><?p d?><i>x &amp; y</i></a></b><n:a xmlns:n="urn:n">` + tag + `-3</n:a></r>`
+		return `<?xml version="1.0"?>` + "\n" + `<r><e/><a>` + tag + `-1</a><b><a x="1" n:y="2" xmlns:n="urn:n">` + tag + `-2<!--c ` + tag + `--><?p d?><i>x &amp; y</i></a></b><n:a xmlns:n="urn:n">` + tag + `-3</n:a></r>`
 	case "xmlbad":
 		return `<r><a>` + tag + `</r>`
 	case "xmlent":
 		return `<r><a>&foo;</a><a>` + tag + `-2</a></r>`
 	case "json", "txtjson":
-		return `{"a": "` + tag + `-1", "b": {"a": "` + tag + `-2", "c": [1, 2]}}`
+		return `{"e": "", "a": "` + tag + `-1", "b": {"a": "` + tag + `-2", "c": [1, 2]}}`
 	case "html":
-		return `<!DOCTYPE html><html><body><a href="u">` + tag + `-1</a><p><a>` + tag + `-2</a></p></body></html>`
+		return `<!DOCTYPE html><html><body><e></e><a href="u">` + tag + `-1</a><p><a>` + tag + `-2</a></p></body></html>`
 	}
 	return ""
 }
@@ -84,7 +84,9 @@ func cliQueries(q string, variant int) cliQuery {
 		}
 		return cliQuery{expr: "count(//a)"}
 	}
-	switch variant % 7 {
+	switch variant % 8 {
+	case 7: // the first node in document order has an EMPTY string-value: still one record (an empty one), and with -a / -m all of them
+		return cliQuery{expr: "//e | //a"}
 	case 6: // a reverse axis: the result arrives in reverse document order; the single record is still the FIRST node's string value
 		return cliQuery{expr: "//a/ancestor::*"}
 	case 4: // a prefixed variable given BEFORE the namespace mapping it needs
@@ -125,7 +127,9 @@ func canon(c xsel.Cursor, b *strings.Builder) {
 			canon(ch, b)
 		}
 	case "text":
-		fmt.Fprintf(b, "T%q", str(v))
+		if len(v) > 0 { // (a text node without characters - the JSON mapping of "" - has no serialisation)
+			fmt.Fprintf(b, "T%q", str(v))
+		}
 	case "comment":
 		fmt.Fprintf(b, "C%q", str(v))
 	case "pi":
@@ -204,9 +208,19 @@ func xmlRecordMatches(record string, c xsel.Cursor) (bool, string) {
 	if strings.Contains(record, "\n") {
 		return false, "record spans several lines"
 	}
-	switch c.Node().(type) {
-	case node.Attribute, node.Namespace:
-		return true, "" // stand-alone serialisation of attribute / namespace nodes is not constrained
+	switch n := c.Node().(type) {
+	case node.Attribute:
+		// an attribute cannot stand alone in XML, so how it is wrapped is not constrained - but the record must still hold the
+		// node: its name and its value
+		if u := html.UnescapeString(record); !strings.Contains(u, n.Local()) || !strings.Contains(u, n.AttributeValue()) {
+			return false, fmt.Sprintf("the record does not hold both the attribute's name %q and its value %q", n.Local(), n.AttributeValue())
+		}
+		return true, ""
+	case node.Namespace:
+		if u := html.UnescapeString(record); !strings.Contains(u, n.NamespaceValue()) {
+			return false, fmt.Sprintf("the record does not hold the namespace name %q", n.NamespaceValue())
+		}
+		return true, ""
 	}
 	if !xmlNameable(c) {
 		// names of the JSON mapping (#obj, #arr) and of HTML tag soup are not XML names: no XML text can parse back to
@@ -289,7 +303,7 @@ func cliCase(line string, rep *Report, fnd *Findings) {
 			os.WriteFile(full, []byte(cliContent(e.Cls, strings.ToUpper(strings.ReplaceAll(e.Name, ".", "_")))), 0o644)
 		}
 	}
-	q := cliQueries(gl.Flags.Q, int(h%7))
+	q := cliQueries(gl.Flags.Q, int(h%8))
 	args := []string{"-x", q.expr}
 	args = append(args, q.args...)
 	if gl.Flags.A {
@@ -435,17 +449,34 @@ func cliCase(line string, rep *Report, fnd *Findings) {
 			}
 			continue
 		}
-		start := -1
-		for k, l := range remaining {
-			if wantNodes == nil && l == pfx+want[0] {
-				start = k
-				break
+		// the block is looked for as a whole (the first records of several files may be the same line, e.g. an empty one);
+		// failing that, from the first line matching its first record, so that the report names the record that differs
+		recOK := func(l string, k int) bool {
+			if wantNodes == nil {
+				return l == pfx+want[k]
 			}
-			if wantNodes != nil && strings.HasPrefix(l, pfx) {
-				if ok, _ := xmlRecordMatches(strings.TrimPrefix(l, pfx), wantNodes[0]); ok {
-					start = k
+			if !strings.HasPrefix(l, pfx) {
+				return false
+			}
+			ok, _ := xmlRecordMatches(strings.TrimPrefix(l, pfx), wantNodes[k])
+			return ok
+		}
+		start := -1
+		for k := 0; k+len(want) <= len(remaining) && start < 0; k++ {
+			all := true
+			for j := range want {
+				if !recOK(remaining[k+j], j) {
+					all = false
 					break
 				}
+			}
+			if all {
+				start = k
+			}
+		}
+		for k := 0; k < len(remaining) && start < 0; k++ {
+			if recOK(remaining[k], 0) {
+				start = k
 			}
 		}
 		if start < 0 || start+len(want) > len(remaining) {
